@@ -91,6 +91,57 @@ class _Canon(ast.NodeTransformer):
     (`not not a` -> `a`, De Morgan, `not a == b` -> `a != b`, likewise in / is; order comparisons are left alone because
     `not a < b` and `a >= b` differ for unordered values).  Positions are preserved."""
 
+    def visit_For(self, n: ast.For):
+        # a loop over a short literal table of rows -- `for flag, prefix, xs in ((f1, P1, a), (f2, P2, b)): BODY` -- is BODY once per row
+        # with the row's entries in place of the loop variables (rows of plain names / attributes / constants, no break / continue at this
+        # level, loop variables not assigned in the body): a table-driven spelling of two or three parallel blocks
+        it, tg = n.iter, n.target
+        rows = it.elts if isinstance(it, (ast.Tuple, ast.List)) and 2 <= len(it.elts) <= 4 else None
+        names = [tg.id] if isinstance(tg, ast.Name) else ([x.id for x in tg.elts] if isinstance(tg, ast.Tuple) and all(isinstance(x, ast.Name) for x in tg.elts) else None)
+
+        def plain(e):
+            while isinstance(e, ast.Attribute):
+                e = e.value
+            return isinstance(e, (ast.Name, ast.Constant))
+        if rows is not None and names is not None and not n.orelse and isinstance(tg, ast.Tuple) \
+                and all(isinstance(r, (ast.Tuple, ast.List)) and len(r.elts) == len(names) and all(plain(x) for x in r.elts) for r in rows):
+            own_level = []
+
+            def collect(stmts):
+                for s_ in stmts:
+                    if isinstance(s_, (ast.Break, ast.Continue)):
+                        own_level.append(s_)
+                    if isinstance(s_, (ast.For, ast.While, ast.FunctionDef, ast.ClassDef)):
+                        continue
+                    for fld in ("body", "orelse", "finalbody"):
+                        b = getattr(s_, fld, None)
+                        if isinstance(b, list) and b and isinstance(b[0], ast.stmt):
+                            collect(b)
+            collect(n.body)
+            stored = {x.id for y in n.body for x in ast.walk(y) if isinstance(x, ast.Name) and isinstance(x.ctx, (ast.Store, ast.Del))}
+            size = sum(1 for y in n.body for x in ast.walk(y) if isinstance(x, ast.stmt))
+            stack = self.__dict__.get("_fn_stack") or []
+            used_after = bool(stack) and any(stack[-1].get(nm, [0, 0])[0] > sum(1 for y in n.body for x in ast.walk(y) if isinstance(x, ast.Name) and x.id == nm
+                                                                                 and isinstance(x.ctx, ast.Load)) for nm in names)
+            if not own_level and not (stored & set(names)) and size <= 16 and not used_after:
+                out = []
+                for r in rows:
+                    sub = dict(zip(names, r.elts))
+
+                    class _S(ast.NodeTransformer):
+                        def visit_Name(self2, x):
+                            if isinstance(x.ctx, ast.Load) and x.id in sub:
+                                return ast.copy_location(copy.deepcopy(sub[x.id]), x)
+                            return x
+                    for s_ in n.body:
+                        out.append(_S().visit(copy.deepcopy(s_)))
+                res = []
+                for s_ in out:
+                    v = self.visit(s_)
+                    res.extend(v if isinstance(v, list) else [v])
+                return res
+        return self.generic_visit(n)
+
     def visit_Expr(self, n: ast.Expr):
         # `xs.extend(f(v) for v in it if c)`  ->  `for v in it: if c: xs.append(f(v))`   (a mapping or a filter; the plain copy `[v for v in it]` is left alone)
         c = n.value
